@@ -721,14 +721,19 @@ def c04_battery(binary):
     combos = [(tz, op, [], False) for tz in ("UTC", "Asia/Tokyo", "America/New_York") for op in (["remove"], ["link"], ["link", "--soft"])]
     # a report made with a transform (the size check is switched off for it) and edits placed in the same second as the scan
     combos = [("UTC", ["remove"], ["--transform", "cat"], False), ("UTC", ["link"], ["--transform", "cat"], False), ("UTC", ["remove"], [], True)] + combos
+    # the report is made in one zone and processed in another (POSIX zone strings: AAA-9 is UTC+9, BBB+5 is UTC-5)
+    combos = [(("AAA-9", "UTC"), ["remove"], [], False), (("AAA-2", "UTC"), ["link"], [], False), (("UTC", "BBB+5"), ["remove"], [], False),
+              (("AAA-3", "AAA-1"), ["link", "--soft"], [], False)] + combos
     for tz, op, gargs, align in combos:
+        tz_group, tz_dedupe = tz if isinstance(tz, tuple) else (tz, tz)
         if True:
             for ename, edit in edits():
                 for member in ("a.bin", "b.bin", "c.bin"):
-                    if (gargs or align) and ename not in ("same-length rewrite", "delete and recreate with other content of the same length"):
+                    if (gargs or align or isinstance(tz, tuple)) and ename not in ("same-length rewrite", "delete and recreate with other content of the same length"):
                         continue
                     d, root = fresh("c04b.")
-                    env = dict(mkenv(d), TZ=tz)
+                    env = dict(mkenv(d), TZ=tz_group)
+                    env2 = dict(env, TZ=tz_dedupe)
                     try:
                         for n in ("a.bin", "b.bin", "c.bin"):
                             p = os.path.join(root, n)
@@ -744,7 +749,7 @@ def c04_battery(binary):
                         edit(os.path.join(root, member))
                         before = inventory(root)
                         with open(rep, "rb") as f:
-                            subprocess.run([binary] + op, stdin=f, stdout=subprocess.PIPE, stderr=subprocess.PIPE, env=env, timeout=60)
+                            subprocess.run([binary] + op, stdin=f, stdout=subprocess.PIPE, stderr=subprocess.PIPE, env=env2, timeout=60)
                         after = inventory(root)
                         kept = {v for v in after.values() if v is not None}
                         for p, content in before.items():
@@ -752,7 +757,7 @@ def c04_battery(binary):
                                 continue
                             now = after.get(p, "gone")
                             if now != content and content not in kept:
-                                devs.append({"tz": tz, "cmd": " ".join(op), "group_options": gargs, "edit": "%s of %s right after `group`" % (ename, member),
+                                devs.append({"tz": tz if not isinstance(tz, tuple) else "group in %s, dedupe in %s" % tz, "cmd": " ".join(op), "group_options": gargs, "edit": "%s of %s right after `group`" % (ename, member),
                                              "lost": "the content %r.. of %s is stored nowhere after the dedupe command" % (content[:12], os.path.basename(p))})
                     finally:
                         shutil.rmtree(d, ignore_errors=True)
